@@ -48,18 +48,12 @@ func (u *User) Read(p []byte) (int, error) {
 	nameLen := make([]byte, 2)
 	binary.BigEndian.PutUint16(nameLen, uint16(len(u.Name)))
 
-	if len(u.Icon) == 4 {
-		u.Icon = u.Icon[2:]
-	}
-
-	if len(u.Flags) == 4 {
-		u.Flags = u.Flags[2:]
-	}
-
+	// Icon and flags occupy exactly two bytes each on the wire.  Clients send the icon as 2 or 4 bytes (and a hostile
+	// one as anything): use the low-order two bytes so that the record always has the layout every reader expects.
 	b := slices.Concat(
 		u.ID[:],
-		u.Icon,
-		u.Flags,
+		lastTwoBytes(u.Icon),
+		lastTwoBytes(u.Flags),
 		nameLen,
 		[]byte(u.Name),
 	)
@@ -73,6 +67,17 @@ func (u *User) Read(p []byte) (int, error) {
 	u.readOffset += n
 
 	return n, nil
+}
+
+// lastTwoBytes returns the low-order two bytes of b, left-padded with zeros.
+func lastTwoBytes(b []byte) []byte {
+	out := make([]byte, 2)
+	if len(b) >= 2 {
+		copy(out, b[len(b)-2:])
+	} else {
+		copy(out[2-len(b):], b)
+	}
+	return out
 }
 
 func (u *User) Write(p []byte) (int, error) {
